@@ -18,9 +18,10 @@ type generator struct {
 
 type intent struct {
 	S    int
-	What string // "stale-op", "again", "expunge", "del-ent", "flag-ent", "expunge-or-close"
+	What string // "stale-op", "again", "expunge", "del-ent", "flag-ent", "set-ent", "expunge-or-close", "noop", "switch", "all-op"
 	Dst  string
 	Ent  int
+	Del  bool // set-ent: the replacing flag list contains \Deleted
 }
 
 func otherBox(rng *common.Rng, not string) string {
@@ -42,6 +43,11 @@ func (g *generator) setup() []op {
 			b = boxNames[g.rng.Pick(len(boxNames))]
 		}
 		ops = append(ops, op{Kind: "SELECT", S: i, Box: b, Setup: true})
+	}
+	if g.k >= 3 && g.rng.Chance(0.5) {
+		// two sessions share a mailbox, the last one has another mailbox selected
+		ops[1].Box = first
+		ops[g.k-1].Box = otherBox(g.rng, first)
 	}
 	return ops
 }
@@ -134,6 +140,13 @@ func (g *generator) genStoreFlags(w *world, rows []vrow) []string {
 
 func (g *generator) selKind() string {
 	if g.rng.Chance(0.35) {
+		return "EXAMINE"
+	}
+	return "SELECT"
+}
+
+func (g *generator) selKindMostlySelect() string {
+	if g.rng.Chance(0.2) {
 		return "EXAMINE"
 	}
 	return "SELECT"
@@ -284,6 +297,19 @@ func (g *generator) next(w *world) (op, bool, error) {
 	for len(g.pending) > 0 {
 		in := g.pending[0]
 		g.pending = g.pending[1:]
+		// commands that must reach the session while it has NOT yet been told the news (no view refresh before them)
+		switch in.What {
+		case "noop":
+			if w.sess[in.S].box != "" {
+				return op{Kind: "NOOP", S: in.S}, true, nil
+			}
+			continue
+		case "switch":
+			if cur := w.sess[in.S].box; cur != "" {
+				return op{Kind: g.selKindMostlySelect(), S: in.S, Box: otherBox(g.rng, cur)}, true, nil
+			}
+			continue
+		}
 		if err := w.refresh(in.S); err != nil {
 			return op{}, false, err
 		}
@@ -300,6 +326,36 @@ func (g *generator) next(w *world) (op, bool, error) {
 				return op{Kind: "CLOSE", S: in.S, Box: s.box}, true, nil
 			}
 			return op{Kind: "EXPUNGE", S: in.S}, true, nil
+		case "all-op":
+			// a command over everything the session is shown
+			if len(s.view) == 0 {
+				return op{Kind: "EXPUNGE", S: in.S}, true, nil
+			}
+			switch x := g.rng.Pick(100); {
+			case x < 50:
+				return op{Kind: "STORE", S: in.S, Set: "1:*", Act: "+", Flags: [][]string{{`\Answered`}, {"sw"}, {`\Deleted`}}[g.rng.Pick(3)]}, true, nil
+			case x < 65:
+				return op{Kind: "STORE", S: in.S, UID: true, Set: "1:*", Act: "=", Flags: []string{"sw", `\Seen`}}, true, nil
+			case x < 85:
+				return op{Kind: []string{"COPY", "MOVE"}[g.rng.Pick(2)], S: in.S, Set: "1:*", Box: otherBox(g.rng, s.box)}, true, nil
+			default:
+				return op{Kind: "EXPUNGE", S: in.S}, true, nil
+			}
+		case "set-ent":
+			for i, r := range s.view {
+				if r.Ent == in.Ent {
+					uid := g.rng.Chance(0.3)
+					set := fmt.Sprint(i + 1)
+					if uid {
+						set = fmt.Sprint(r.UID)
+					}
+					fl := [][]string{{`\Answered`}, {"xs"}, {}, {`\Seen`, "xs"}}[g.rng.Pick(4)]
+					if in.Del {
+						fl = append([]string{`\Deleted`}, fl...)
+					}
+					return op{Kind: "STORE", S: in.S, UID: uid, Set: set, Act: "=", Silent: g.rng.Chance(0.3), Flags: fl}, true, nil
+				}
+			}
 		case "del-ent", "flag-ent":
 			for i, r := range s.view {
 				if r.Ent == in.Ent {
@@ -358,6 +414,37 @@ func (g *generator) next(w *world) (op, bool, error) {
 			if j != si && t.box != s.box {
 				elsewhere = append(elsewhere, j)
 			}
+		}
+		if len(elsewhere) > 0 && len(sh) > 0 && g.rng.Chance(0.45) {
+			// one message in two mailboxes whose \Deleted differs; STORE FLAGS (replace form) here; the session of the other
+			// mailbox is told first, then a second session of this mailbox, which then expunges
+			other := elsewhere[g.rng.Pick(len(elsewhere))]
+			mate := sh[g.rng.Pick(len(sh))]
+			p := g.rng.Range(1, n)
+			ent := view[p-1].Ent
+			if g.rng.Chance(0.5) {
+				// \Deleted there, not here
+				g.pending = append(g.pending, intent{S: other, What: "del-ent", Ent: ent}, intent{S: si, What: "set-ent", Ent: ent})
+			} else {
+				// \Deleted here (by the replacing STORE), not there
+				g.pending = append(g.pending, intent{S: si, What: "set-ent", Ent: ent, Del: true})
+			}
+			g.pending = append(g.pending, intent{S: other, What: "noop"}, intent{S: mate, What: "expunge-or-close"})
+			return op{Kind: "COPY", S: si, Set: fmt.Sprint(p), Box: w.sess[other].box}, true, nil
+		}
+		if len(sh) > 0 && g.rng.Chance(0.3) {
+			// news for this mailbox (a new message, or one taken out and put back), then a session that shares the mailbox
+			// switches to another one before it has been told, is told there and works on everything it is shown
+			mate := sh[g.rng.Pick(len(sh))]
+			g.pending = append(g.pending, intent{S: mate, What: "switch"})
+			if g.rng.Chance(0.6) {
+				g.pending = append(g.pending, intent{S: mate, What: "noop"})
+			}
+			g.pending = append(g.pending, intent{S: mate, What: "all-op"})
+			if g.rng.Chance(0.5) {
+				return op{Kind: "APPEND", S: si, Box: s.box, Flags: []string{}}, true, nil
+			}
+			return op{Kind: []string{"MOVE", "COPY"}[g.rng.Pick(2)], S: si, Set: fmt.Sprint(g.rng.Range(1, n)), Box: s.box}, true, nil
 		}
 		if len(elsewhere) > 0 && g.rng.Chance(0.3) {
 			// one message in two mailboxes: \Deleted here, another flag changed through the other mailbox, then EXPUNGE/CLOSE here
@@ -447,8 +534,10 @@ func (g *generator) next(w *world) (op, bool, error) {
 			}
 		}
 		return op{Kind: "STORE", S: si, UID: uid, Set: set, Act: act, Silent: g.rng.Chance(0.3), Flags: flags}, true, nil
-	case x < 53:
+	case x < 51:
 		return op{Kind: "EXPUNGE", S: si}, true, nil
+	case x < 53:
+		return op{Kind: "NOOP", S: si}, true, nil
 	case x < 58:
 		return op{Kind: "UIDEXPUNGE", S: si, Set: g.genSet(view, true)}, true, nil
 	case x < 62:
